@@ -15,7 +15,8 @@ def gen_evs(r, n, p, pint):
     while r.random() < p:
         k = r.random()
         if k < .55:
-            evs.append(["die", r.randrange(n) if r.random() < .97 else n + r.randrange(2)])
+            # "dies" = a death that some poll outside the manager's loop reaps at once (see pm_driver: startup windows)
+            evs.append(["die" if r.random() < .96 else "dies", r.randrange(n) if r.random() < .97 else n + r.randrange(2)])
         elif k < .75:
             evs.append(["hup"])
         elif k < .9:
@@ -39,6 +40,90 @@ def gen_env(r):
     if k < .32:
         return dict(name=r.choice(RENAMED_MAIN), child=False)   # top-level process that renamed itself
     return None                                                 # MainProcess
+
+
+def mark(ev, at, j):
+    return ev + [dict(at=at, j=j)]
+
+
+def prep_rank(n, at, j):
+    """order in which the points of prepare_workers occur: start 0..n-1, then poll j, wait j for j = 0..n-1"""
+    return j if at == "start" else n + 2 * j + (at == "wait")
+
+
+def prep_death(n, i, at, j):
+    """worker i exits at point (at, j) of prepare_workers: before the poll of its own startup wait that poll reaps it
+    (Live -> Reaped: "dies"), after it the process stays a zombie until the first scan ("die")"""
+    return mark(["dies" if prep_rank(n, at, j) <= prep_rank(n, "poll", i) else "die", i], at, j)
+
+
+def gen_prepare_window(r, n, pint):
+    """events that happen INSIDE prepare_workers (the first 0.1 s x workers of the manager's life): workers that exit
+    at once (import error, wrong broker path, OOM kill), signals, file changes.  Returned in the order in which the
+    points occur; goes in front of the first tick's sleep events."""
+    out = []
+    points = [("start", j) for j in range(n)] + [(a, j) for j in range(n) for a in ("poll", "wait")]
+    style = r.random()
+    if style < .2:                                      # every worker crashes at startup
+        for i in range(n):
+            at, j = r.choice([("start", i), ("poll", i), ("poll", i), ("wait", i), r.choice(points[i:])])
+            out.append(prep_death(n, i, at, j))
+    else:
+        for at, j in points:
+            started = (j + 1) if at == "start" else n
+            while r.random() < (.25 if style < .8 else .5):
+                k = r.random()
+                if k < .7:
+                    i = j if r.random() < .7 else r.randrange(started)
+                    out.append(prep_death(n, i, at, j))
+                elif k < .8:
+                    out.append(mark(["hup"], at, j))
+                elif k < .9:
+                    out.append(mark(["file"], at, j))
+                elif r.random() < pint:
+                    out.append(mark([r.choice(["int", "term"])], at, j))
+    out.sort(key=lambda e: prep_rank(n, e[-1]["at"], e[-1]["j"]))
+    return out or [prep_death(n, r.randrange(n), "poll", n - 1)]
+
+
+def gen_reload_window(r, n, pint):
+    """events inside the startup window of ONE replacement (ReloadOneAction.handle): before the poll of its startup
+    wait only polled deaths ("dies": the window's own worker is reaped by that poll, any other by the fake), inside
+    Event.wait anything"""
+    out = []
+    for at in ("start", "poll", "wait"):
+        while r.random() < .45:
+            k = r.random()
+            if k < .65:
+                out.append(mark(["dies" if at != "wait" else "die", r.randrange(n)], at, 0))
+            elif k < .8:
+                out.append(mark(["hup"], at, 0))
+            elif k < .9:
+                out.append(mark(["file"], at, 0))
+            elif r.random() < pint:
+                out.append(mark([r.choice(["int", "term"])], at, 0))
+    return out
+
+
+def add_reload_windows(r, n, pint, ticks):
+    """make a replacement likely (a death one tick earlier: drain point 1 follows its reload; or a reload-all: drain
+    points 2.. follow the reloads) and put window events at the head of the drain point that follows it"""
+    if len(ticks) < 2:
+        return
+    for _ in range(r.choice([1, 1, 2])):
+        t = r.randrange(1, len(ticks))
+        i = r.randrange(n)
+        if r.random() < .6:
+            ticks[t - 1]["sleep"].append(["die", i])
+            ks = [1]
+        else:
+            ticks[t]["sleep"].insert(0, r.choice([["hup"], ["file"]]))
+            ks = r.sample(range(2, n + 2), r.randint(1, min(n, 2)))
+        d = ticks[t]["drain"]
+        for k in ks:
+            d += [[] for _ in range(k + 1 - len(d))]
+            if not (d[k] and isinstance(d[k][0][-1], dict)):
+                d[k] = (gen_reload_window(r, n, pint) or [mark(["dies", i], "poll", 0)]) + d[k]
 
 
 def gen_case(r, max_ticks=40, mfs=MFS_QUICK, max_n=4):
@@ -80,6 +165,12 @@ def gen_case(r, max_ticks=40, mfs=MFS_QUICK, max_n=4):
                 t["drain"][j] = t["drain"][j] + [ev]
         if r.random() < .25:
             t["sleep"].append([r.choice(["int", "term"])])
+    k = r.random()
+    if k < .09:
+        # startup windows: things that happen while prepare_workers / a reload is still waiting for the new process
+        ticks[0]["sleep"] = gen_prepare_window(r, n, pint) + ticks[0]["sleep"]
+    if .06 < k < .13:
+        add_reload_windows(r, n, pint, ticks)
     c = dict(n=n, mf=mf, p0=r.choice([1, 100, 100, 1000, r.randint(1, 2000)]), ticks=ticks)
     if r.random() < .35:
         c["slow"] = r.choice([2, 2, 3])     # workers that need an unbounded join() to exit after terminate()
@@ -149,9 +240,30 @@ def exhaustive_mid(n, mf, depth):
                     yield dict(n=n, mf=mf, p0=100, ticks=h2)
 
 
+def exhaustive_prep(n, mf, depth):
+    """every way the workers can exit inside prepare_workers (each worker: not at all / inside its own Process.start()
+    / right before the poll of its startup wait / inside the Event.wait of that wait) x {no signal, SIGHUP inside the
+    first start(), SIGINT inside the last Event.wait that is reached} x every (reduced-alphabet) history of at most
+    `depth` ticks"""
+    for fates in itertools.product([None, "start", "poll", "wait"], repeat=n):
+        for sig in (None, "hup", "int"):
+            pre = [prep_death(n, i, at, i) for i, at in enumerate(fates) if at]
+            if sig == "hup":
+                pre.append(mark(["hup"], "start", 0))
+            if sig == "int":
+                pre.append(mark(["int"], "wait", n - 1))
+            if not pre:
+                continue
+            pre.sort(key=lambda e: prep_rank(n, e[-1]["at"], e[-1]["j"]))
+            for h in sleep_histories(n, depth, True):
+                h2 = [dict(x) for x in h]
+                h2[0]["sleep"] = pre + h2[0]["sleep"]
+                yield dict(n=n, mf=mf, p0=100, ticks=h2)
+
+
 # --------------------------------------------------------------------------- Coq literals
 def c_ev(e):
-    return {"die": lambda: "Die %d" % e[1], "hup": lambda: "Hup", "int": lambda: "Int", "term": lambda: "Term",
+    return {"die": lambda: "Die %d" % e[1], "dies": lambda: "DieS %d" % e[1], "hup": lambda: "Hup", "int": lambda: "Int", "term": lambda: "Term",
             "file": lambda: "FileChange"}[e[0]]()
 
 
@@ -422,6 +534,34 @@ def count_case(rep, c, o):
         rep.count("branch:scan-found-dead")
     if o["result"] == ["exit", "none"] and any(s != "live" for _, s in o["final"]):
         rep.count("branch:shutdown-skips-dead-worker")
+    ev_lists = [(ti, kind, evs) for ti, t in enumerate(c["ticks"])
+                for kind, evs in [("sleep", t["sleep"])] + [("drain", x) for x in t["drain"]] + [("alive", x) for x in t["alive"]]]
+    marked = [(ti, kind, e) for ti, kind, evs in ev_lists for e in evs if isinstance(e[-1], dict)]
+    if any(kind == "sleep" for _, kind, _ in marked):
+        rep.count("startup_window:events-scripted-inside-prepare_workers")
+        for at in sorted({e[-1]["at"] for _, kind, e in marked if kind == "sleep"}):
+            rep.count("startup_window:prepare-point-" + at)
+        if any(e[0] in ("die", "dies") for _, kind, e in marked if kind == "sleep"):
+            rep.count("startup_window:worker-exits-inside-prepare_workers")
+            dead = {e[1] for _, kind, e in marked if kind == "sleep" and e[0] in ("die", "dies")}
+            if len(dead) >= c["n"]:
+                rep.count("startup_window:every-worker-exits-inside-prepare_workers")
+        if any(e[0] in ("hup", "file", "int", "term") for _, kind, e in marked if kind == "sleep"):
+            rep.count("startup_window:signal-or-file-change-inside-prepare_workers")
+    if any(kind == "drain" for _, kind, _ in marked):
+        rep.count("startup_window:events-scripted-inside-a-reload")
+    early = o.get("early") or {}
+    if early.get("prepare"):
+        rep.count("startup_window:delivered-inside-prepare_workers")
+    if early.get("reload"):
+        rep.count("startup_window:delivered-inside-a-reload")
+    polled = o.get("polled") or {}
+    if polled.get("by-startup-wait"):
+        rep.count("startup_window:death-reaped-by-the-startup-wait")
+    if polled.get("elsewhere"):
+        rep.count("events:death-polled-outside-the-loop")
+    if (o.get("deaths") or {}).get("startup-window"):
+        rep.count("startup_window:worker-died-inside-a-window")
     for t in c["ticks"]:
         if any(t["drain"]):
             rep.count("events:mid-drain")
@@ -471,7 +611,7 @@ def run(ctx, pid, meta):
     if not ctx.quick:
         rep.exhaustive = True
         for fam, n, depth in THOROUGH[pid]:
-            gen = exhaustive_sleep if fam == "sleep" else exhaustive_mid
+            gen = {"sleep": exhaustive_sleep, "mid": exhaustive_mid, "prep": exhaustive_prep}[fam]
             it = (c for mf in (-1, 0, 1, 2, 3) for c in gen(n, mf, depth))
             total, k = 0, 0
             while True:
@@ -491,7 +631,8 @@ def run(ctx, pid, meta):
 # exhaustive families of the thorough tier (family, workers, depth).  Same model and driver for both properties:
 # C17 carries the deep sleep-event family, C18 the deep mid-tick family, each also runs the other one shallower.
 THOROUGH = {
-    "C17": [("sleep", 1, 4), ("sleep", 2, 4), ("sleep", 3, 3), ("mid", 1, 2), ("mid", 2, 2), ("mid", 3, 1)],
+    "C17": [("sleep", 1, 4), ("sleep", 2, 4), ("sleep", 3, 3), ("mid", 1, 2), ("mid", 2, 2), ("mid", 3, 1),
+            ("prep", 1, 3), ("prep", 2, 2), ("prep", 3, 1)],
     "C18": [("mid", 1, 3), ("mid", 2, 3), ("mid", 3, 2), ("sleep", 1, 3), ("sleep", 2, 3), ("sleep", 3, 2)],
 }
 
